@@ -119,6 +119,9 @@ func runC15(r *Report, tier string) {
 		o.check(miss == "" && okMode, "decode, kty present/int/!=0, kid/alg/key_ops/base IV errors checked", "missing on the success exit: "+truncate(miss, 200))
 	}
 	r.floor("R15.1", ns, 1, "success exits of the key decoder")
+	// what is validated is what was decoded: no field of an earlier key
+	// survives in the receiver (the consistency check would run against it)
+	checkReceiverAssigned(r, "R15.1", dec)
 	// label loop: kept entries have int64 or string labels
 	{
 		var L *loopInfo
